@@ -2,7 +2,7 @@
    Only statements, each closed by `exact`, with its assumptions printed.
    Tier A (RNum) except perp_index_is_subrange and rank_* (Tier S: every N : Num, every sorting permutation). *)
 From Coq Require Import Reals List ZArith Permutation PrimFloat.
-From Knee Require Import Num NumR NumFloat NpList Model.LinearFit Model.Geometry Proofs.MetricsFacts Proofs.LinearFitFacts Proofs.GeometryFacts.
+From Knee Require Import Num NumR NumFloat NpList OrdLaws FloatOrder Model.LinearFit Model.Geometry Proofs.MetricsFacts Proofs.LinearFitFacts Proofs.GeometryFacts.
 Import ListNotations.
 Local Open Scope R_scope.
 
@@ -121,6 +121,16 @@ Theorem C17_rank_okb_sound : forall (N : Num) (a : list (T N)) (r : list nat), r
                Num.leb (nth i a Num.zero) (nth j a Num.zero) = true).
 Proof. exact (@rank_okb_sound). Qed.
 Print Assumptions C17_rank_okb_sound.
+
+(* Tier O: the stable sort of the executable model is one such permutation, so the model's rank satisfies the predicate *)
+Theorem C17_rank_model : forall (N : Num) (P : T N -> Prop), TotalPreorderOn P ->
+  forall a : list (T N), Forall P a -> sorts a (argsort_stable a) /\ rank_okb a (rank a) = true.
+Proof. exact (fun N P HP a Ha => conj (@argsort_stable_sorts N P HP a Ha) (@rank_model_ok N P HP a Ha)). Qed.
+Print Assumptions C17_rank_model.
+Theorem C17_rank_model_float : forall a : list float,
+  Forall (@notnan FloatNum) a -> rank_okb (N := FloatNum) a (@rank FloatNum a) = true.
+Proof. exact (@rank_model_ok FloatNum (@notnan FloatNum) float_total_preorder). Qed.
+Print Assumptions C17_rank_model_float.
 
 (* ---- distances, distance_to_similarity, triangle_area, _ccw ---- *)
 Theorem C17_distances : forall (q : R * R) (P : list (R * R)),
